@@ -130,11 +130,17 @@ def run_shard(spec):
         a = run_worker(tg, 0)
         # process B: histories interleaved, reversed order, another hash seed
         order = list(range(len(tg)))[::-1]
-        ops_b, pos = [], {}
+        ops_b, pos, reopset = [], {}, set()
         for j, i in enumerate(order):
             ops_b += hist[j % len(hist)] if hist else []
             if j % 3 == 0:
                 ops_b.append({"kind": "bad_pattern"})
+            if tg[i]["kind"] in ("optimize", "optimize_ir", "fold", "rewrite") and (perm_seed + i) % 4 != 3:
+                # the target's own model re-labelled with other opsets goes through the same operation first (whatever that does, raising
+                # included): state keyed by operator name instead of (operator, version) - kernel / schema caches - shows on the target
+                for other in [(4, 11, 13, 14), (14, 12, 17, 4), (6, 21, 4, 14)][(perm_seed + i) % 3]:  # (below 5/6/7/15 several operators have no reference kernel)
+                    ops_b.append(dict(tg[i], reopset=other))
+                reopset.add(i)
             pos[i] = len(ops_b)
             ops_b.append(tg[i])
         rb = run_worker(ops_b, hs_b)
@@ -146,7 +152,7 @@ def run_shard(spec):
         for i, t in enumerate(tg):
             ra, rbb = a[i], b[i]
             nontrivial = True
-            classes = ["target:" + t["kind"], "hashseedB:%s" % hs_b] + (["single_rule_batch"] if t.get("focus") else [])
+            classes = ["target:" + t["kind"], "hashseedB:%s" % hs_b] + (["single_rule_batch"] if t.get("focus") else []) + (["history:same_model_other_opsets"] if i in reopset else [])
             if t.get("fails"):
                 classes.append("failing_target")
             if ra.get("d", "").startswith("EXC"):
